@@ -17,12 +17,14 @@ func init() {
 }
 
 type pairOpts struct {
+	sharePool   bool // every end uses the same WriteBufferSize and one shared pool
 	prepared    bool // prepared messages are the point of the scenario
 	prepMore    bool // most data ops are prepared sends
 	minWBuf     int  // smallest write buffer generated (0 = any)
 	noCtlMsgs   bool // no control messages through the message APIs
 	controllers int  // max controllers per end
 	links       int
+	poolW       int
 }
 
 // genPair draws a fault-free pair scenario.
@@ -70,8 +72,15 @@ func genPair(r *PRNG, tier, prop string, o pairOpts) *Scenario {
 			sv.HijackR = r.Pick([]int{0, 0, 16, 64, 300, 4096})
 			sv.HijackW = r.Pick([]int{0, 0, 16, 300, 4096})
 		}
+		if o.sharePool {
+			if li == 0 {
+				o.poolW = genWBuf(r, o.minWBuf)
+			}
+			cl.WriteBuf, sv.WriteBuf = o.poolW, o.poolW
+			cl.Pool, sv.Pool = 1, 1
+		}
 		for _, e := range []*EndCfg{cl, sv} {
-			if r.Chance(1, 3) && li == 0 {
+			if r.Chance(1, 3) && li == 0 && !o.sharePool {
 				e.Pool = 1
 				if e == sv && cl.Pool != 0 && effW(cl.WriteBuf) != effW(sv.WriteBuf) {
 					e.Pool = 2 // one pool per write buffer size, as the documentation requires
